@@ -57,7 +57,7 @@ SamePattern(e) == e.same_pattern
 
 EventOK(e) ==
   /\ SamePattern(e)
-  /\ IF ~e.enable THEN Disabled(e)
+  /\ IF ~e.enable THEN (Disabled(e) /\ Reciprocals(e))      \* (identity scaling: the stored inverses are ones too)
      ELSE Bounded(e) /\ ZeroUnscaled(e) /\ ConePreserving(e) /\ Reciprocals(e) /\ Products(e)
 
 VARIABLES l, bad
